@@ -345,6 +345,7 @@ MUTANTS += [
     R("fix-revert-D9-me-nil", ["C07"], ["b46c41e"]),
     R("fix-revert-D12-cancel-watcher", ["C07"], ["284a71a"]),
     R("fix-revert-D15-caps-survive-reconnect", ["C19"], ["a5060ce"]),
+    R("fix-revert-D16-stale-nick-at-reregistration", ["C18"], ["4fb2257"]),
     # ---- C06
     M("c06-close-checks-connected-unlocked", ["C06"], CONN, """	conn.mu.Lock()
 	if !conn.connected || gen != conn.generation {
